@@ -12,6 +12,7 @@ import (
 	"sort"
 	"strconv"
 	"strings"
+	"syscall"
 	"time"
 
 	logslog "log/slog"
@@ -173,17 +174,27 @@ func coreMain(args []string) int {
 		r.reset()
 		out.emit(map[string]any{"op": "Reset"})
 		for _, ev := range beh {
-			// a call that does not come back within 30 s is recorded as such (the model rejects the line) and
-			// the process ends: whatever it holds cannot be released from outside
 			done := make(chan struct{})
 			go func(ev coreEvent) {
-				select {
-				case <-done:
-				case <-time.After(30 * time.Second):
-					out.emit(map[string]any{"op": ev.Op, "l": ev.L, "k": ev.K, "a": ev.A, "b": ev.B, "ret": -1,
-						"outcome": "hang: the call (or an observation after it) did not return within 30 s"})
-					out.close()
-					os.Exit(0)
+				// a call that does not come back is recorded as such (the model rejects the line) and the process
+				// ends.  "Does not come back" = 30 s of wall time during which the process used next to no CPU
+				// (blocked: a deadlock), or 15 minutes whatever it does; a slow call on a busy machine is neither
+				start, cpu0 := time.Now(), coreCPU()
+				tick := time.NewTicker(5 * time.Second)
+				defer tick.Stop()
+				for {
+					select {
+					case <-done:
+						return
+					case <-tick.C:
+						wall := time.Since(start)
+						if (wall >= 30*time.Second && coreCPU()-cpu0 < 500*time.Millisecond) || wall >= 15*time.Minute {
+							out.emit(map[string]any{"op": ev.Op, "l": ev.L, "k": ev.K, "a": ev.A, "b": ev.B, "ret": -1,
+								"outcome": fmt.Sprintf("hang: the call (or an observation after it) did not return within %d s (process CPU time used meanwhile: %d ms)", int(wall.Seconds()), (coreCPU()-cpu0).Milliseconds())})
+							out.close()
+							os.Exit(0)
+						}
+					}
 				}
 			}(ev)
 			rec := r.exec(ev)
@@ -683,6 +694,15 @@ func (r *coreRun) logNest(l *slog.Entry, ev coreEvent, rec map[string]any) {
 	}
 	rec["nest"] = map[string]any{"outer": outer, "inner": inner}
 	rec["outcome"] = outcome
+}
+
+// coreCPU: user + system CPU time this process has used so far
+func coreCPU() time.Duration {
+	var ru syscall.Rusage
+	if syscall.Getrusage(syscall.RUSAGE_SELF, &ru) != nil {
+		return 0
+	}
+	return time.Duration(ru.Utime.Nano() + ru.Stime.Nano())
 }
 
 var coreReSGR = regexp.MustCompile("\x1b\\[[0-9;]*m")
